@@ -3,6 +3,14 @@ import SfxModel.Layout
 /-
   FromStr.lean — model of `src/from_str.rs` (tokeniser, per-radix digit folds, decimal fast path / slow path, recombination).
   Entry point mirrors `from_str_{i,u}{8..128}(bytes, radix, int_nbits, frac_nbits)`.
+
+  Conventions.  A byte string is a `List Nat` (values `0..255`).  An unsigned primitive `I` of `n = I::NBITS` bits is
+  the canonical `Int` in `[0, 2^n)`; every definition that is generic over `I` in the Rust takes `n` as its first
+  argument.  `u32`/`usize` counters (bit counts, lengths, indices) are `Nat`s; where the Rust subtracts two such counters
+  the comment says why the subtraction cannot underflow (Lean's truncated `-` is then the same number).
+  The `Outcome` monad is used where a `debug_assert!`, a slice index, an `unreachable!()` or an unchecked operator whose
+  safety depends on a non-local argument occurs; plain arithmetic is used where the comment gives the local reason for
+  which the unchecked Rust operator cannot overflow.
 -/
 namespace Sfx
 namespace FromStr
@@ -10,8 +18,522 @@ namespace FromStr
 /-- error kinds in the order of `ParseErrorKind`: 0 InvalidDigit, 1 NoDigits, 2 TooManyPoints, 3 Overflow -/
 abbrev ParseResult := Except Nat (Int × Bool)
 
-/-- STUB — replaced by the model -/
-def fromStr (_signed : Bool) (_nbits : Nat) (_bytes : List Nat) (_radix _intN _fracN : Nat) : Option (Outcome ParseResult) := none
+/-! ### small helpers -/
+
+/-- `byte - b'0'` on `u8`.  Every byte that reaches a digit fold was accepted by `parse_bounds` as a digit of the
+radix, hence `byte ≥ 0x30` and the `u8` subtraction cannot underflow. -/
+def digitVal (byte : Nat) : Nat := byte - 48
+
+/-- `IntHelper::is_odd` (`self & 1 != 0`) -/
+def isOdd (x : Int) : Bool := x % 2 == 1
+
+/-- `if bytes.len() > max_len { (&bytes[(bytes.len() - max_len)..], true) } else { (bytes, false) }`
+(the common prologue of the four `*_str_int_to_bin`; the slice start is in range by the test) -/
+def keepLast (maxLen : Nat) (bytes : List Nat) : List Nat × Bool :=
+  if bytes.length > maxLen then (bytes.drop (bytes.length - maxLen), true) else (bytes, false)
+
+/-! ### per-radix integer folds -/
+
+/-- `bin_str_int_to_bin::<I>`.  `acc << 1` has bit 0 clear, so `+ I::from(byte - b'0')` (0 or 1) cannot overflow. -/
+def binStrIntToBin (n : Nat) (bytes : List Nat) : Int × Bool :=
+  let maxLen := n
+  let (bytes, overflow) := keepLast maxLen bytes
+  let acc := bytes.foldl (fun acc byte => shlI false n acc 1 + Int.ofNat (digitVal byte)) 0
+  (acc, overflow)
+
+/-- `unchecked_hex_digit`: `(byte & 0x0f) + if byte >= 0x40 { 9 } else { 0 }` (at most `15 + 9`, no `u8` overflow) -/
+def uncheckedHexDigit (byte : Nat) : Nat := (byte &&& 0x0f) + (if byte ≥ 0x40 then 9 else 0)
+
+/-- `oct_str_int_to_bin::<I>` (`k = 3`, `digit = digitVal`) and `hex_str_int_to_bin::<I>` (`k = 4`,
+`digit = uncheckedHexDigit`): the two functions are the same text up to these two parameters.
+* `max_len = (NBITS + (k-1)) / k`;
+* `bytes[0]` panics on an empty slice (callers test `int.is_empty()` first);
+* `first_max_bits = NBITS - (max_len - 1) * k` is 2,1,2,1,2 (octal) / 4 (hex) for the five widths: no underflow, and the
+  constant shift `1 << first_max_bits` is in range;
+* `acc << k` silently drops the bits shifted out; its low `k` bits are clear so `+ digit` (`< 2^k`) cannot overflow. -/
+def powStrIntToBin (k : Nat) (digit : Nat → Nat) (n : Nat) (bytes : List Nat) : Outcome (Int × Bool) :=
+  let maxLen := (n + (k - 1)) / k
+  let (bytes, overflow) := keepLast maxLen bytes
+  match bytes with
+  | [] => .panic
+  | b0 :: rest =>
+    let acc : Int := Int.ofNat (digit b0)
+    let overflow :=
+      if bytes.length = maxLen then
+        let firstMaxBits := n - (maxLen - 1) * k
+        let firstMax := shlI false n 1 firstMaxBits - 1
+        if acc > firstMax then true else overflow
+      else overflow
+    let acc := rest.foldl (fun acc byte => shlI false n acc k + Int.ofNat (digit byte)) acc
+    pure (acc, overflow)
+
+/-- `oct_str_int_to_bin::<I>` -/
+def octStrIntToBin (n : Nat) (bytes : List Nat) : Outcome (Int × Bool) := powStrIntToBin 3 digitVal n bytes
+/-- `hex_str_int_to_bin::<I>` -/
+def hexStrIntToBin (n : Nat) (bytes : List Nat) : Outcome (Int × Bool) := powStrIntToBin 4 uncheckedHexDigit n bytes
+
+/-- `dec_str_int_to_bin::<I>`: keep the last `NBITS` digits, fold with `overflowing_mul(10)` / `overflowing_add(digit)` -/
+def decStrIntToBin (n : Nat) (bytes : List Nat) : Int × Bool :=
+  let maxEffectiveLen := n
+  let (bytes, overflow) := keepLast maxEffectiveLen bytes
+  bytes.foldl (fun (st : Int × Bool) byte =>
+      let (acc, overflow) := st
+      let (mul, mulOverflow) := ovfI false n (acc * 10)
+      let (add, addOverflow) := ovfI false n (mul + Int.ofNat (digitVal byte))
+      (add, overflow || mulOverflow || addOverflow))
+    (0, overflow)
+
+/-! ### per-radix fraction converters -/
+
+/-- the tail common to the three `*_str_frac_to_bin` once the half bit has been examined:
+`if round_up { acc = acc.checked_add(I::from(1))?; }  if dump_bits != 0 && acc >> nbits != I::ZERO { return None; }  return Some(acc);`
+(`dump_bits != 0` means `nbits < NBITS`, so the shift amount is in range when it is evaluated) -/
+def fracFinish (n nbits : Nat) (acc : Int) (roundUp : Bool) : Option Int :=
+  match (if roundUp then chkI false n (acc + 1) else some acc) with
+  | none => none
+  | some acc =>
+    let dumpBits := n - nbits
+    if dumpBits != 0 && shrI acc nbits != 0 then none else some acc
+
+/-- loop of `bin_str_frac_to_bin`: state `(rem_bits, acc)`; `bytes.len() > i + 1` is "the rest is not empty".
+`acc << 1` has bit 0 clear, so `+ I::from(val)` cannot overflow.  The final `acc << rem_bits` has a run-time amount
+(`ushl`); it is below `NBITS` whenever `bytes` is non-empty. -/
+def binFracLoop (n nbits : Nat) : List Nat → Nat → Int → Outcome (Option Int)
+  | [], remBits, acc => do
+    let r ← ushl false n acc remBits
+    pure (some r)
+  | byte :: rest, remBits, acc =>
+    let val := digitVal byte
+    if remBits < 1 then
+      let roundUp := val != 0 && (!rest.isEmpty || isOdd acc)
+      pure (fracFinish n nbits acc roundUp)
+    else
+      binFracLoop n nbits rest (remBits - 1) (shlI false n acc 1 + Int.ofNat val)
+
+/-- `bin_str_frac_to_bin::<I>(bytes, nbits)`; `dump_bits = NBITS - nbits` needs `nbits ≤ NBITS` (all callers) -/
+def binStrFracToBin (n : Nat) (bytes : List Nat) (nbits : Nat) : Outcome (Option Int) := do
+  Outcome.dassert (!bytes.isEmpty)
+  binFracLoop n nbits bytes nbits 0
+
+/-- loop of `oct_str_frac_to_bin` (`k = 3`) / `hex_str_frac_to_bin` (`k = 4`), the same text up to `k` and the digit
+function.  In the last-digit branch `rem_bits < k`, so `val >> (k - rem_bits)` and `half = 1 << (k - 1 - rem_bits)` are
+`u8` shifts by less than 8; `acc << rem_bits` is a shift by `< k ≤ NBITS`, its low `rem_bits` bits are clear and the
+added digit part is `< 2^rem_bits`, so the `+` cannot overflow (likewise `(acc << k) + val`). -/
+def powFracLoop (k : Nat) (digit : Nat → Nat) (n nbits : Nat) : List Nat → Nat → Int → Outcome (Option Int)
+  | [], remBits, acc => do
+    let r ← ushl false n acc remBits
+    pure (some r)
+  | byte :: rest, remBits, acc =>
+    let val := digit byte
+    if remBits < k then
+      let acc := shlI false n acc remBits + Int.ofNat (val >>> (k - remBits))
+      let half : Nat := 1 <<< (k - 1 - remBits)
+      let roundUp := (val &&& half != 0) && ((val &&& (half - 1) != 0) || !rest.isEmpty || isOdd acc)
+      pure (fracFinish n nbits acc roundUp)
+    else
+      powFracLoop k digit n nbits rest (remBits - k) (shlI false n acc k + Int.ofNat val)
+
+/-- `oct_str_frac_to_bin::<I>(bytes, nbits)` -/
+def octStrFracToBin (n : Nat) (bytes : List Nat) (nbits : Nat) : Outcome (Option Int) := do
+  Outcome.dassert (!bytes.isEmpty)
+  powFracLoop 3 digitVal n nbits bytes nbits 0
+
+/-- `hex_str_frac_to_bin::<I>(bytes, nbits)` -/
+def hexStrFracToBin (n : Nat) (bytes : List Nat) (nbits : Nat) : Outcome (Option Int) := do
+  Outcome.dassert (!bytes.isEmpty)
+  powFracLoop 4 uncheckedHexDigit n nbits bytes nbits 0
+
+/-! ### decimal fractions: `DecToBin` -/
+
+/-- the `$dec` argument of `impl_dec_to_bin! { u8, u16, 3, 8 }` … `{ u64, u128, 27, 64 }` -/
+def decDigits (bin : Nat) : Nat := if bin = 8 then 3 else if bin = 16 then 6 else if bin = 32 then 13 else 27
+
+/-- `<$Single as DecToBin>::dec_to_bin(val, nbits, round)` of `impl_dec_to_bin!`; `nearest = true` is `Round::Nearest`.
+`$Double` has `2*bin` bits.  `fives * 2 < 2^bin`, the shifts `$bin - $dec + 1`, `$dec - 1` are constants below the width,
+`$bin - nbits` needs `nbits ≤ $bin` (second debug assertion) and is then `≤ bin < 2*bin`, `nbits ≤ bin` likewise.
+`numer += fives` is kept as a checked add: its safety is a numeric fact about the four instances.
+`div -= 1` happens only for odd `div`.  `div as $Single` truncates. -/
+def decToBin (bin dec : Nat) (val : Int) (nbits : Nat) (nearest : Bool) : Outcome (Option Int) := do
+  let dbl := 2 * bin
+  Outcome.dassert (decide (val < 10 ^ dec))
+  Outcome.dassert (decide (nbits ≤ bin))
+  let fives : Int := 5 ^ dec
+  let denom : Int := fives * 2
+  let shifted := shlI false dbl val (bin - dec + 1)
+  let numer := shrI shifted (bin - nbits)
+  let inexact := shlI false dbl numer (bin - nbits) != shifted
+  let finish (numer : Int) : Option Int :=
+    let div := Int.tdiv numer denom
+    let tie := Int.tmod numer denom == 0 && !inexact
+    let div := if tie && isOdd div then div - 1 else div
+    some (wrapU bin div)
+  if nearest then
+    let numer ← uadd false dbl numer fives
+    if shrI numer nbits ≥ denom then
+      pure (if nbits == 0 && val == shlI false dbl fives (dec - 1) then some 0 else none)
+    else pure (finish numer)
+  else pure (finish numer)
+
+/-- `<$Single as DecToBin>::parse_is_short(bytes)`: at most `$dec` digits are folded in the double-width type, so the
+value is `< 10^len` and `* pad` (`pad = 10^($dec - len)`) stays below `10^$dec < 2^(2*bin)`: no overflow. -/
+def parseIsShort (bin dec : Nat) (bytes : List Nat) : Int × Bool :=
+  let (isShort, slice, pad) : Bool × List Nat × Int :=
+    if bytes.length ≤ dec then (true, bytes, 10 ^ (dec - bytes.length)) else (false, bytes.take dec, 1)
+  let val := (decStrIntToBin (2 * bin) slice).1 * pad
+  (val, isShort)
+
+/-- `mul_hi_lo(lhs, rhs)`: 128×128→256 schoolbook product on 64-bit halves.  All four partial products are below
+`2^128` (the `wrapping_mul` never wraps, it is kept as written); `lhs_hi_rhs_lo + col01_hi ≤ (2^64-1)^2 + 2^64 - 1 < 2^128`;
+`(col12_lo << 64) + col01_lo` adds into clear low bits; `ans23` is the true high limb of a product `< 2^256`. -/
+def mulHiLo (lhs rhs : Int) : Int × Int :=
+  let lhsHi := shrI lhs 64; let lhsLo := lhs % 2 ^ 64
+  let rhsHi := shrI rhs 64; let rhsLo := rhs % 2 ^ 64
+  let lhsLoRhsLo := wrapU 128 (lhsLo * rhsLo)
+  let lhsHiRhsLo := wrapU 128 (lhsHi * rhsLo)
+  let lhsLoRhsHi := wrapU 128 (lhsLo * rhsHi)
+  let lhsHiRhsHi := wrapU 128 (lhsHi * rhsHi)
+  let col01 := lhsLoRhsLo
+  let col01Hi := shrI col01 64; let col01Lo := col01 % 2 ^ 64
+  let partialCol12 := lhsHiRhsLo + col01Hi
+  let (col12, carryCol3) := ovfI false 128 (partialCol12 + lhsLoRhsHi)
+  let col12Hi := shrI col12 64; let col12Lo := col12 % 2 ^ 64
+  let ans01 := shlI false 128 col12Lo 64 + col01Lo
+  let ans23 := lhsHiRhsHi + col12Hi + (if carryCol3 then 2 ^ 64 else 0)
+  (ans23, ans01)
+
+/-- `div_tie(dividend_hi, dividend_lo, divisor)` through `wide_div.rs` -/
+def divTie (dividendHi dividendLo divisor : Int) : Outcome (Int × Bool) := do
+  let ((_, lo), rem) ← WideDiv.divRemFromU 128 divisor dividendHi dividendLo
+  pure (lo, rem == 0)
+
+/-- `<u128 as DecToBin>::dec_to_bin((hi, lo), nbits, round)`.
+`numer_lo & !(!0 << shr)` is `numer_lo mod 2^shr`.  All shift amounts are in `1..=127` given `nbits ≤ 128`:
+`shr = 53 - nbits ∈ [1,53]`, `shl = nbits - 53 ∈ [1,75]`, and the `nbits` / `128 - nbits` pair is used only for
+`0 < nbits < 128`.  Left shifts drop high bits silently.  The two `+ 1` carries are kept as checked adds. -/
+def decToBin128 (hi lo : Int) (nbits : Nat) (nearest : Bool) : Outcome (Option Int) := do
+  Outcome.dassert (decide (hi < 10 ^ 27))
+  Outcome.dassert (decide (lo < 10 ^ 27))
+  Outcome.dassert (decide (nbits ≤ 128))
+  let fives : Int := 5 ^ 54
+  let denom : Int := fives * 2
+  let (hiHi, hiLo) := mulHiLo hi (10 ^ 27)
+  let (valLo, overflow) := ovfI false 128 (hiLo + lo)
+  let valHi ← if overflow then uadd false 128 hiHi 1 else pure hiHi
+  let (numerLo, numerHi, inexact) : Int × Int × Bool :=
+    if nbits < 53 then
+      let shr := 53 - nbits
+      (orI false 128 (shrI valLo shr) (shlI false 128 valHi (128 - shr)), shrI valHi shr, valLo % 2 ^ shr != 0)
+    else if nbits > 53 then
+      let shl := nbits - 53
+      (shlI false 128 valLo shl, orI false 128 (shlI false 128 valHi shl) (shrI valLo (128 - shl)), false)
+    else (valLo, valHi, false)
+  let finish (numerHi numerLo : Int) : Outcome (Option Int) := do
+    let (div, tie) ← divTie numerHi numerLo denom
+    let tie := tie && !inexact
+    let div := if tie && isOdd div then div - 1 else div
+    pure (some div)
+  if nearest then
+    let (wrapped, overflow) := ovfI false 128 (numerLo + fives)
+    let numerLo := wrapped
+    let numerHi ← if overflow then uadd false 128 numerHi 1 else pure numerHi
+    let checkOverflow :=
+      if nbits == 128 then numerHi
+      else if nbits == 0 then numerLo
+      else orI false 128 (shrI numerLo nbits) (shlI false 128 numerHi (128 - nbits))
+    if checkOverflow ≥ denom then
+      let halfHi := shrI fives (128 - (54 - 1))
+      let halfLo := shlI false 128 fives (54 - 1)
+      pure (if nbits == 0 && valHi == halfHi && valLo == halfLo then some 0 else none)
+    else finish numerHi numerLo
+  else finish numerHi numerLo
+
+/-- `<u128 as DecToBin>::parse_is_short(bytes)`; both limbs are folds of at most 27 digits in `u128`, padded to 27
+digits (`< 10^27 < 2^128`: the `*` cannot overflow).  `&bytes[27..]` / `&bytes[27..54]` are in range by the tests. -/
+def parseIsShort128 (bytes : List Nat) : (Int × Int) × Bool :=
+  if bytes.length ≤ 27 then
+    let hi := (decStrIntToBin 128 bytes).1 * 10 ^ (27 - bytes.length)
+    ((hi, 0), true)
+  else
+    let hi := (decStrIntToBin 128 (bytes.take 27)).1
+    let (isShort, slice, pad) : Bool × List Nat × Int :=
+      if bytes.length ≤ 54 then (true, bytes.drop 27, 10 ^ (54 - bytes.length))
+      else (false, (bytes.drop 27).take 27, 1)
+    let lo := (decStrIntToBin 128 slice).1 * pad
+    ((hi, lo), isShort)
+
+/-- `I::parse_is_short(bytes)` followed by `I::dec_to_bin(val, nbits, round)` with the round mode chosen by
+`dec_str_frac_to_bin` (`Nearest` iff `is_short`): returns `(floor?, is_short)` -/
+def decFloor (n : Nat) (bytes : List Nat) (nbits : Nat) : Outcome (Option Int × Bool) :=
+  if n = 128 then do
+    let ((hi, lo), isShort) := parseIsShort128 bytes
+    let r ← decToBin128 hi lo nbits isShort
+    pure (r, isShort)
+  else do
+    let (val, isShort) := parseIsShort n (decDigits n) bytes
+    let r ← decToBin n (decDigits n) val nbits isShort
+    pure (r, isShort)
+
+/-! ### decimal fractions: the slow path -/
+
+/-- `Mul10::mul10_assign` (`display.rs`), returns `(new self, carry digit)`.
+Widening instances: `prod = Double::from(self) * 10` cannot overflow; `self = prod as Single`; `(prod >> NBITS) as u8`.
+`u128` instance: on 64-bit halves; `hi`, `lo` are `< 10 * 2^64`; `hi_hi as u8 + u8::from(overflow)` is the carry digit of
+`self * 10`, at most 9. -/
+def mul10Assign (n : Nat) (x : Int) : Int × Int :=
+  if n = 128 then
+    let hi := shrI x 64 * 10
+    let lo := (x % 2 ^ 64) * 10
+    let hiLo := wrapU 64 hi; let hiHi := wrapU 64 (shrI hi 64)
+    let loLo := wrapU 64 lo; let loHi := wrapU 64 (shrI lo 64)
+    let (wrapped, overflow) := ovfI false 64 (hiLo + loHi)
+    (orI false 128 (shlI false 128 wrapped 64) loLo, wrapU 8 hiHi + (if overflow then 1 else 0))
+  else
+    let prod := x * 10
+    (wrapU n prod, wrapU 8 (shrI prod n))
+
+/-- the `for &byte in bytes` loop of `dec_str_frac_to_bin`; state `(boundary, add_5)`.
+`none`: the loop executed `return Some(floor)`;  `some (tie, boundary, add_5)`: the state after the loop.
+(`boundary_digit += 1` acts on a digit `≤ 9`.) -/
+def boundaryLoop (n : Nat) : List Nat → Int → Bool → Option (Bool × Int × Bool)
+  | [], boundary, add5 => some (true, boundary, add5)
+  | byte :: rest, boundary, add5 =>
+    if !add5 && boundary == 0 then some (false, boundary, add5)
+    else
+      let (boundary, boundaryDigit) := mul10Assign n boundary
+      let (boundary, boundaryDigit, add5) : Int × Int × Bool :=
+        if add5 then
+          let (wrapped, overflow) := ovfI false n (boundary + 5)
+          (wrapped, if overflow then boundaryDigit + 1 else boundaryDigit, false)
+        else (boundary, boundaryDigit, add5)
+      let d : Int := Int.ofNat (digitVal byte)
+      if d < boundaryDigit then none
+      else if d > boundaryDigit then some (false, boundary, add5)
+      else boundaryLoop n rest boundary add5
+
+/-- `dec_str_frac_to_bin::<I>(bytes, nbits)`.  `dump_bits = NBITS - nbits` needs `nbits ≤ NBITS`.  In the third
+`boundary` case `0 < dump_bits < NBITS`, `floor < 2^nbits`, so both shifts are in range and the sum sets a clear bit.
+`next_up >> nbits` is evaluated only when `nbits < NBITS`. -/
+def decStrFracToBin (n : Nat) (bytes : List Nat) (nbits : Nat) : Outcome (Option Int) := do
+  let (floor?, isShort) ← decFloor n bytes nbits
+  match floor? with
+  | none => pure none
+  | some floor =>
+    if isShort then pure (some floor) else
+    let one : Int := 1
+    let dumpBits := n - nbits
+    let (boundary, add5) : Int × Bool :=
+      if nbits == 0 then (2 ^ (n - 1), false)
+      else if dumpBits == 0 then (floor, true)
+      else (shlI false n floor dumpBits + shlI false n one (dumpBits - 1), false)
+    match boundaryLoop n bytes boundary add5 with
+    | none => pure (some floor)
+    | some (tie, boundary, add5) =>
+      if tie && (add5 || boundary != 0) then pure (some floor)
+      else if tie && !isOdd floor then pure (some floor)
+      else
+        match chkI false n (floor + one) with
+        | none => pure none
+        | some nextUp =>
+          if dumpBits != 0 && shrI nextUp nbits != 0 then pure none else pure (some nextUp)
+
+/-! ### tokeniser -/
+
+/-- `Parse { neg, int, frac }` -/
+structure Parse where
+  neg : Bool
+  int : List Nat
+  frac : List Nat
+deriving Repr, DecidableEq
+
+/-- the mutable locals of `parse_bounds` -/
+structure Bounds where
+  sign : Option Bool := none
+  trimmedIntStart : Option Nat := none
+  point : Option Nat := none
+  trimmedFracEnd : Option Nat := none
+  hasAnyDigit : Bool := false
+deriving Repr, DecidableEq
+
+/-- the digit arm of the `match (byte, radix)` in `parse_bounds` -/
+def isDigitOf (byte radix : Nat) : Bool :=
+  (48 ≤ byte && byte ≤ 49 && radix == 2) ||
+  (48 ≤ byte && byte ≤ 55 && radix == 8) ||
+  (48 ≤ byte && byte ≤ 57 && radix == 10) ||
+  (48 ≤ byte && byte ≤ 57 && radix == 16) ||
+  (97 ≤ byte && byte ≤ 102 && radix == 16) ||
+  (65 ≤ byte && byte ≤ 70 && radix == 16)
+
+/-- the `for (index, &byte) in bytes.iter().enumerate()` loop of `parse_bounds` -/
+def parseBoundsLoop (radix : Nat) : List Nat → Nat → Bounds → Except Nat Bounds
+  | [], _, st => .ok st
+  | byte :: rest, index, st =>
+    if byte = 43 then          -- b'+'
+      if st.sign.isSome || st.point.isSome || st.hasAnyDigit then .error 0
+      else parseBoundsLoop radix rest (index + 1) { st with sign := some false }
+    else if byte = 45 then     -- b'-'
+      if st.sign.isSome || st.point.isSome || st.hasAnyDigit then .error 0
+      else parseBoundsLoop radix rest (index + 1) { st with sign := some true }
+    else if byte = 46 then     -- b'.'
+      if st.point.isSome then .error 2
+      else parseBoundsLoop radix rest (index + 1) { st with point := some index, trimmedFracEnd := some (index + 1) }
+    else if isDigitOf byte radix then
+      let st := if st.trimmedIntStart.isNone && st.point.isNone && byte != 48
+        then { st with trimmedIntStart := some index } else st
+      let st := if st.trimmedFracEnd.isSome && byte != 48
+        then { st with trimmedFracEnd := some (index + 1) } else st
+      parseBoundsLoop radix rest (index + 1) { st with hasAnyDigit := true }
+    else .error 0
+
+/-- `&bytes[a..b]` for `a ≤ b ≤ len` -/
+def slice (bytes : List Nat) (a b : Nat) : List Nat := (bytes.drop a).take (b - a)
+
+/-- `parse_bounds(bytes, radix)`.  The slices are in range: `trimmed_int_start` is only set before the point is seen
+(`start < point`), and `trimmed_frac_end ≥ point + 1`. -/
+def parseBounds (bytes : List Nat) (radix : Nat) : Except Nat Parse :=
+  match parseBoundsLoop radix bytes 0 {} with
+  | .error k => .error k
+  | .ok st =>
+    if !st.hasAnyDigit then .error 1 else
+    let neg := st.sign.getD false
+    let int := match st.trimmedIntStart, st.point with
+      | some start, some point => slice bytes start point
+      | some start, none => bytes.drop start
+      | none, _ => []
+    let frac := match st.point, st.trimmedFracEnd with
+      | some point, some e => slice bytes (point + 1) e
+      | _, _ => []
+    .ok { neg := neg, int := int, frac := frac }
+
+/-- `frac_is_half(bytes, radix)`: `bytes.len() == 1 && bytes[0] - b'0' == (radix as u8) / 2` -/
+def fracIsHalf (bytes : List Nat) (radix : Nat) : Bool :=
+  match bytes with
+  | [b] => digitVal b == (radix % 256) / 2
+  | _ => false
+
+/-! ### `impl_from_str!` -/
+
+/-- the part of `$get_int` after the half-width attempt, for `$BitsU` of `n` bits.
+`remove_bits = NBITS - nbits` needs `nbits ≤ NBITS`; `parsed_int >> nbits` is evaluated for `nbits < NBITS` and
+`parsed_int <<= remove_bits` for `nbits ≥ 1`, so both amounts are in range. -/
+def getIntDirect (n : Nat) (int : List Nat) (radix nbits : Nat) : Outcome (Int × Bool) :=
+  if int.isEmpty then pure (0, false) else do
+  let (parsedInt, overflow) ←
+    if radix = 2 then pure (binStrIntToBin n int)
+    else if radix = 8 then octStrIntToBin n int
+    else if radix = 16 then hexStrIntToBin n int
+    else pure (decStrIntToBin n int)
+  let removeBits := n - nbits
+  if nbits == 0 then pure (0, true)
+  else if removeBits > 0 then
+    let overflow := if shrI parsedInt nbits != 0 then true else overflow
+    pure (shlI false n parsedInt removeBits, overflow)
+  else pure (parsedInt, overflow)
+
+/-- `$get_int` with `$attempt_int_half = true`: `if nbits <= HALF { let (half, overflow) = $get_int_half(int, radix, nbits);
+return ($BitsU::from(half) << HALF, overflow); }` (constant shift by `NBITS/2`) -/
+def getIntHalf (n : Nat) (half : List Nat → Nat → Nat → Outcome (Int × Bool)) (int : List Nat) (radix nbits : Nat) :
+    Outcome (Int × Bool) :=
+  if nbits ≤ n / 2 then do
+    let (h, overflow) ← half int radix nbits
+    pure (shlI false n h (n / 2), overflow)
+  else getIntDirect n int radix nbits
+
+/-- `get_int8` (`(get_int8, false)`: no half-width attempt) -/
+def getInt8 : List Nat → Nat → Nat → Outcome (Int × Bool) := getIntDirect 8
+/-- `get_int16` (`(get_int8, true)`) -/
+def getInt16 : List Nat → Nat → Nat → Outcome (Int × Bool) := getIntHalf 16 getInt8
+/-- `get_int32` (`(get_int16, true)`) -/
+def getInt32 : List Nat → Nat → Nat → Outcome (Int × Bool) := getIntHalf 32 getInt16
+/-- `get_int64` (`(get_int32, true)`) -/
+def getInt64 : List Nat → Nat → Nat → Outcome (Int × Bool) := getIntHalf 64 getInt32
+/-- `get_int128` (`(get_int64, true)`) -/
+def getInt128 : List Nat → Nat → Nat → Outcome (Int × Bool) := getIntHalf 128 getInt64
+
+/-- `$get_int` of the instance for `n`-bit primitives -/
+def getInt (n : Nat) : List Nat → Nat → Nat → Outcome (Int × Bool) :=
+  if n = 8 then getInt8 else if n = 16 then getInt16 else if n = 32 then getInt32
+  else if n = 64 then getInt64 else getInt128
+
+/-- the part of `$get_frac` after the half-width attempt; `_ => unreachable!()` panics in every profile -/
+def getFracDirect (n : Nat) (frac : List Nat) (radix nbits : Nat) : Outcome (Option Int) :=
+  if frac.isEmpty then pure (some 0)
+  else if radix = 2 then binStrFracToBin n frac nbits
+  else if radix = 8 then octStrFracToBin n frac nbits
+  else if radix = 16 then hexStrFracToBin n frac nbits
+  else if radix = 10 then decStrFracToBin n frac nbits
+  else .panic
+
+/-- `$get_frac` with `$attempt_frac_half = true`: `if nbits <= NBITS / 2 { return $get_frac_half(frac, radix, nbits).map($BitsU::from); }`
+(zero extension: the value is unchanged) -/
+def getFracHalf (n : Nat) (half : List Nat → Nat → Nat → Outcome (Option Int)) (frac : List Nat) (radix nbits : Nat) :
+    Outcome (Option Int) :=
+  if nbits ≤ n / 2 then half frac radix nbits else getFracDirect n frac radix nbits
+
+/-- `get_frac8` (`(get_frac8, false)`) -/
+def getFrac8 : List Nat → Nat → Nat → Outcome (Option Int) := getFracDirect 8
+/-- `get_frac16` (`(get_frac8, true)`) -/
+def getFrac16 : List Nat → Nat → Nat → Outcome (Option Int) := getFracHalf 16 getFrac8
+/-- `get_frac32` (`(get_frac16, true)`) -/
+def getFrac32 : List Nat → Nat → Nat → Outcome (Option Int) := getFracHalf 32 getFrac16
+/-- `get_frac64` (`(get_frac32, false)`: no half-width attempt) -/
+def getFrac64 : List Nat → Nat → Nat → Outcome (Option Int) := getFracDirect 64
+/-- `get_frac128` (`(get_frac64, true)`) -/
+def getFrac128 : List Nat → Nat → Nat → Outcome (Option Int) := getFracHalf 128 getFrac64
+
+/-- `$get_frac` of the instance for `n`-bit primitives -/
+def getFrac (n : Nat) : List Nat → Nat → Nat → Outcome (Option Int) :=
+  if n = 8 then getFrac8 else if n = 16 then getFrac16 else if n = 32 then getFrac32
+  else if n = 64 then getFrac64 else getFrac128
+
+/-- `$get_int_frac(bytes, radix, int_nbits, frac_nbits)` → `(neg, val, overflow)`.
+`1 << frac_nbits` is evaluated only when `int_nbits != 0`; the amount is below `NBITS` when
+`int_nbits + frac_nbits = NBITS` (kept as a checked shift because it depends on the caller). -/
+def getIntFrac (n : Nat) (bytes : List Nat) (radix intN fracN : Nat) : Outcome (Except Nat (Bool × Int × Bool)) :=
+  match parseBounds bytes radix with
+  | .error k => pure (.error k)
+  | .ok p => do
+    let (intVal, overflow) ← getInt n p.int radix intN
+    let fr ← getFrac n p.frac radix fracN
+    let (fracVal, fracOverflow) : Int × Bool := match fr with
+      | some v => (v, false)
+      | none => (0, true)
+    let val := orI false n intVal fracVal
+    if fracOverflow || (isOdd intVal && fracN == 0 && fracIsHalf p.frac radix) then
+      let (newVal, newOverflow) ←
+        if intN == 0 then (pure (val, true) : Outcome (Int × Bool))
+        else do
+          let ulp ← ushl false n 1 fracN
+          pure (ovfI false n (val + ulp))
+      pure (.ok (p.neg, newVal, overflow || newOverflow))
+    else pure (.ok (p.neg, val, overflow))
+
+/-- `$from_i`: `max_abs = MSB - if !neg { 1 } else { 0 }`; `abs.wrapping_neg()` / `as $BitsI` -/
+def fromStrI (n : Nat) (bytes : List Nat) (radix intN fracN : Nat) : Outcome ParseResult := do
+  match ← getIntFrac n bytes radix intN fracN with
+  | .error k => pure (.error k)
+  | .ok (neg, abs, overflow) =>
+    let maxAbs : Int := 2 ^ (n - 1) - (if !neg then 1 else 0)
+    let overflow := if abs > maxAbs then true else overflow
+    let abs := wrapS n (if neg then wrapU n (-abs) else abs)
+    pure (.ok (abs, overflow))
+
+/-- `$from_u`: a negative sign on a non-zero magnitude is an overflow; `abs.wrapping_neg()` -/
+def fromStrU (n : Nat) (bytes : List Nat) (radix intN fracN : Nat) : Outcome ParseResult := do
+  match ← getIntFrac n bytes radix intN fracN with
+  | .error k => pure (.error k)
+  | .ok (neg, abs, overflow) =>
+    let overflow := if neg && abs > 0 then true else overflow
+    let abs := if neg then wrapU n (-abs) else abs
+    pure (.ok (abs, overflow))
+
+/-- `from_str_{i,u}{8,16,32,64,128}(bytes, radix, int_nbits, frac_nbits)`.
+Result: error kind, or `(bits as the canonical signed/unsigned integer, overflow flag)`.
+`none` only outside the contract under which the crate calls these functions (`nbits` one of the five widths and
+`int_nbits + frac_nbits = nbits`, i.e. `Self::INT_NBITS`, `Self::FRAC_NBITS`). -/
+def fromStr (signed : Bool) (nbits : Nat) (bytes : List Nat) (radix intN fracN : Nat) : Option (Outcome ParseResult) :=
+  if (nbits = 8 ∨ nbits = 16 ∨ nbits = 32 ∨ nbits = 64 ∨ nbits = 128) ∧ intN + fracN = nbits then
+    some (if signed then fromStrI nbits bytes radix intN fracN else fromStrU nbits bytes radix intN fracN)
+  else none
 
 end FromStr
 end Sfx
